@@ -27,17 +27,17 @@ import (
 )
 
 type verifFeed struct {
-	tb     testing.TB
-	net    *verifgen.Net
-	node   *Node
-	badger *storage.BadgerStore
-	store  storage.Store // what the node uses (may be a proxy around badger)
-	wrap   func(*storage.BadgerStore) storage.Store
-	dir    string
-	rng    *rand.Rand
-	self   int    // index of the genesis node this replica runs as
-	cursor uint64 // timeline cursor for generated snapshot timestamps
-	custodians []common.Address // custodian accounts installed by the harness after genesis
+	tb         testing.TB
+	net        *verifgen.Net
+	node       *Node
+	badger     *storage.BadgerStore
+	store      storage.Store // what the node uses (may be a proxy around badger)
+	wrap       func(*storage.BadgerStore) storage.Store
+	dir        string
+	rng        *rand.Rand
+	self       int                        // index of the genesis node this replica runs as
+	cursor     uint64                     // timeline cursor for generated snapshot timestamps
+	custodians []common.Address           // custodian accounts installed by the harness after genesis
 	extraKeys  map[crypto.Hash]crypto.Key // signer keys of nodes that joined after genesis
 	pledges    int
 }
@@ -111,6 +111,7 @@ func (f *verifFeed) stop() {
 			close(f.node.done)
 		}()
 		f.node.cacheStore.Clear()
+		f.node.cacheStore.Close()
 		f.node = nil
 	}
 	if f.badger != nil {
@@ -353,7 +354,11 @@ func (f *verifFeed) feedBatch(chainId crypto.Hash, txs []*common.VersionedTransa
 // W-crash: a storage.Store proxy that counts every mutating call, records it,
 // and can stop the replica at a chosen call boundary.
 
-type verifCrash struct{ at int; method string; before bool }
+type verifCrash struct {
+	at     int
+	method string
+	before bool
+}
 
 type verifCall struct {
 	Index  int
@@ -365,8 +370,8 @@ type verifProxy struct {
 	storage.Store
 	mu      sync.Mutex // guards calls/counters when several chain goroutines use the store
 	calls   []verifCall
-	cutAt   int  // index of the call to cut at (-1: never)
-	before  bool // stop before performing the call (else right after it)
+	cutAt   int                                       // index of the call to cut at (-1: never)
+	before  bool                                      // stop before performing the call (else right after it)
 	onCall  func(idx int, method string, before bool) // schedule-injection hook, runs at both sides of every call
 	inHook  bool
 	stopped bool
